@@ -1,6 +1,11 @@
 """Shared input corpora (octet strings with a tag naming the generator that produced them)."""
 from gen import *
 
+# inputs solved from the path conditions on which the regenerated decoder differs from the Model (py/symsearch.py);
+# empty unless a translated function no longer ties
+EXTRA_DEC = []
+EXTRA_AVPS = []
+
 D_INPUTS = [  # the inputs of defects D1..D7 found on the pinned tree (DESIGN.md section 3); always run first
     ('D1', bytes.fromhex('13200004' + '00' * 8)),
     ('D1b', bytes.fromhex('1320000b' + '00' * 8)),
@@ -134,7 +139,7 @@ def big_items(rng):
 
 def dec_corpus(rng, budget, thorough=False):
     """-> list of (tag, octets): mostly-valid structured inputs plus a malformed stream"""
-    out = list(D_INPUTS)
+    out = list(D_INPUTS) + list(EXTRA_DEC)
     out += length_grid(rng)
     out += [(t, ctrl_bytes(r)) for (t, r) in guard_grid(rng, thorough)]
     out += data_grid(rng, thorough)
@@ -171,7 +176,7 @@ def dec_corpus(rng, budget, thorough=False):
 
 
 def avps_corpus(rng, budget, thorough=False):
-    out = [('D2_body', bytes.fromhex('000300000000')), ('empty', b'')]
+    out = [('D2_body', bytes.fromhex('000300000000')), ('empty', b'')] + list(EXTRA_AVPS)
     out += guard_grid(rng, thorough)
     while len(out) < budget:
         c = rng.random()
